@@ -88,6 +88,10 @@ type oC08 struct {
 
 func (o *oC08) Name() string { return "C08" }
 
+func newC08(r *e2e, t *tracker) *oC08 {
+	return &oC08{r: r, t: t, recs: map[string][]seenRec{}, checkAt: map[string]int{}, checkKey: map[string]string{}, pending: map[string]string{}, inTree: map[string]map[string]int{}}
+}
+
 func urlText(it *models.Item) string {
 	if it == nil || it.GetURL() == nil {
 		return ""
@@ -96,7 +100,7 @@ func urlText(it *models.Item) string {
 }
 
 func (o *oC08) OnEvent(k *Kernel, ev *Event) {
-	if !o.r.sc.Cfg.Seencheck || o.r.sc.Cfg.UseHQ {
+	if o.r != nil && (!o.r.sc.Cfg.Seencheck || o.r.sc.Cfg.UseHQ) {
 		return
 	}
 	switch ev.Point {
@@ -491,7 +495,7 @@ func moreE2EOracles(r *e2e, t *tracker) []Oracle {
 	}
 	return []Oracle{
 		&oC07{r: r, t: t, anchors: anchors},
-		&oC08{r: r, t: t, recs: map[string][]seenRec{}, checkAt: map[string]int{}, checkKey: map[string]string{}, pending: map[string]string{}, inTree: map[string]map[string]int{}},
+		newC08(r, t),
 		&oC09{r: r, t: t},
 		&oC11{r: r, before: map[string]map[string]int{}},
 		&oC17{r: r, relT: map[string]int64{}, okPending: map[string]bool{}},
